@@ -539,4 +539,67 @@ example : serveAuthSw srv { srv with authorizer := some (fun _ _ => false) } ⟨
     = [.ran 7, .ran 8, .closed] ∧
     serveAuthSw srv srv ⟨true, true, "alice"⟩ (fun _ => true) 2 7 [8, 7, 7] = [.ran 7, .ran 8, .ran 7, .ran 7, .closed] := by decide
 
+
+/-- **switch_late**: a reconfiguration that takes effect only after the last command of the connection
+    has arrived changes nothing: the run is `s1`'s. -/
+theorem switch_late (s1 s2 : Server) (sess : Sess) (keep : Nat → Bool) :
+    ∀ (n cmd : Nat) (rest : List Nat), rest.length < n →
+      serveAuthSw s1 s2 sess keep n cmd rest = s1.serveAuth sess keep cmd rest := by
+  intro n
+  induction n with
+  | zero => intro cmd rest h; omega
+  | succ n ih =>
+    intro cmd rest h
+    unfold serveAuthSw Server.serveAuth
+    cases rest with
+    | nil => rfl
+    | cons next rest' =>
+      have h' : rest'.length < n := by simp at h; omega
+      simp only [ih next rest' h']
+
+/-- **switch_sound**: whatever the moment of the switch, every handler that runs is admitted by one of
+    the two configurations (`switch_before_step` / `switch_after` say which one). -/
+theorem switch_sound (s1 s2 : Server) (sess : Sess) (keep : Nat → Bool) :
+    ∀ (n cmd : Nat) (rest : List Nat) (c : Nat), Ev.ran c ∈ serveAuthSw s1 s2 sess keep n cmd rest →
+      (∃ hd, s1.lookup c = some hd ∧ hd.raw = false ∧ s1.satisfies c sess = true) ∨
+      (∃ hd, s2.lookup c = some hd ∧ hd.raw = false ∧
+        levelOK (s2.policyFor c) sess.authenticated sess.encrypted = true ∧ s2.authorizedFor c sess.user = true) := by
+  intro n
+  induction n with
+  | zero => intro cmd rest c h; exact Or.inr (switch_after s1 s2 sess keep cmd rest c h)
+  | succ n ih =>
+    intro cmd rest c h
+    generalize hrun : serveAuthSw s1 s2 sess keep (n+1) cmd rest = run at h
+    cases run with
+    | nil => simp at h
+    | cons ev tl =>
+      cases ev with
+      | closed =>
+        -- a run that starts with `closed` is `[closed]`
+        unfold serveAuthSw at hrun
+        cases hl : s1.lookup cmd with
+        | none => simp [hl] at hrun; subst hrun; simp at h
+        | some hd =>
+          simp only [hl] at hrun
+          by_cases hr : hd.raw = true
+          · simp [hr] at hrun; subst hrun; simp at h
+          · have hr' : hd.raw = false := by simpa using hr
+            by_cases hs : s1.satisfies cmd sess = true
+            · simp only [hr', Bool.false_eq_true, if_false, hs, Bool.not_true] at hrun
+              by_cases hk : keep cmd = true
+              · simp only [hk, Bool.not_true, Bool.false_eq_true, if_false] at hrun
+                cases rest <;> simp at hrun
+              · have hk' : keep cmd = false := by simpa using hk
+                simp [hk'] at hrun
+            · have hs' : s1.satisfies cmd sess = false := by simpa using hs
+              simp [hr', hs'] at hrun; subst hrun; simp at h
+      | ran c' =>
+        obtain ⟨hc, hadm, htl⟩ := switch_before_step s1 s2 sess keep n cmd rest c' tl hrun
+        simp only [List.mem_cons, Ev.ran.injEq] at h
+        rcases h with h | h
+        · subst h; exact Or.inl hadm
+        · rcases htl with htl | ⟨next, rest', _, htl⟩
+          · subst htl; simp at h
+          · subst htl; exact ih next rest' c h
+
 end Cedar.C05
